@@ -346,26 +346,34 @@ def _get_or_make_region(
 
     position = parse_vtt_pct(value[0])
     if position is not None:
+      is_horizontal = writing_mode in (styles.WritingModeType.rltb, styles.WritingModeType.lrtb)
+      size = extent_width if is_horizontal else extent_height
+      # the cue box never extends beyond the video: see "maximum size" in the WebVTT rendering rules
       if line_align == "center":
-        if writing_mode in (styles.WritingModeType.rltb, styles.WritingModeType.lrtb):
-          origin_x = position - extent_width / 2
-        else:
-          origin_y = position - extent_height / 2
+        size = min(size, 2 * min(position, 100 - position))
+        origin = position - size / 2
       elif line_align == "line-left":
-        if writing_mode in (styles.WritingModeType.rltb, styles.WritingModeType.lrtb):
-          origin_x = position
-        else:
-          origin_y = position
-      elif line_align == "line-right":
-        if writing_mode in (styles.WritingModeType.rltb, styles.WritingModeType.lrtb):
-          origin_x = position - extent_width
-        else:
-          origin_y = position - extent_height
+        size = min(size, 100 - position)
+        origin = position
       else:
-        LOGGER.warning("Bad position alignment setting value: %s", line_align)
+        size = min(size, position)
+        origin = position - size
+      if is_horizontal:
+        origin_x = origin
+        extent_width = size
+      else:
+        origin_y = origin
+        extent_height = size
 
     else:
       LOGGER.warning("Bad position setting value: %s", cue_settings.get("position"))
+
+  else:
+    # no position: keep the box inside the root container
+    if writing_mode in (styles.WritingModeType.rltb, styles.WritingModeType.lrtb):
+      origin_x = min(origin_x, 100 - extent_width)
+    else:
+      origin_y = min(origin_y, 100 - extent_height)
 
 
   extent = styles.ExtentType(
